@@ -43,10 +43,34 @@ def obligations(tier):
         claim="docmd() answers a command with exactly one error report carrying its delivery number or one started delivery in its own free slot inside the "
               "table; open() only for ids made of digits and '/' starting with a digit; delivery only for a regular file owned by the queue user; no descriptor leak",
         expect_witnesses=lambda p: ["delnum_too_big_refused"] + (["bad_messid_refused"] if p["ML"] >= 1 else [])
-                         + (["refused_after_open", "delivery_started"] if p["ML"] >= 1 and p["RL"] >= 3 else []), **SPAWN_COMMON)
+                         + (["refused_after_open", "delivery_started", "slot_reused"] if p["ML"] >= 1 and p["RL"] >= 3 else []), **SPAWN_COMMON)
+    spawn_main = Obl("spawn_main", "spawnmain.c", progs=[Prog("spawn.c", main_as="spawn_main", cut=["getcmd"])],
+        repo=["stralloc_opys.c", "stralloc_opyb.c", "stralloc_cats.c", "stralloc_catb.c", "byte_copy.c", "byte_rchr.c", "open_read.c",
+              "wait_nohang.c", "substdio.c"],
+        lib=["ideal_substdio.c", "arena_stralloc.c"], defines={"ARENA_CAP": 8, "ARENA_SLOTS": 3},
+        sysrename=["read", "close", "select", "waitpid", "_exit", "sleep", "chdir"],
+        # measured: K=4 150 s, K=5 445 s (both under load)
+        grid=[{"NS": 2, "K": k, "OL": 2, "TR": tr} for (k, tr) in (((4, 0),) if tier == "quick" else ((4, 3000), (5, 0)))]
+             + ([] if tier == "quick" else [{"NS": 3, "K": 4, "OL": 1, "TR": 0}]),
+        unwind=lambda p: {"spawn_main~for (;;)": p["K"] + 2, "sigchld~while": p["NS"] + 2},
+        # FD_ZERO is a 16-iteration loop
+        unwind_default=18, timeout=900 if tier == "quick" else 3000,
+        functions=["spawn.c:main", "spawn.c:sigchld", "spawn.c:okwrite", "wait_nohang.c:wait_nohang"],
+        cuts=["getcmd -> an accepted command occupies a free slot exactly as docmd() leaves it (obligations spawn_getcmd, spawn_docmd)",
+              "report -> observer (real ones: C09 rspawn_report, C20 report_lspawn)"],
+        stubs=["select/read/close/waitpid: model of NS children with symbolic output (0..OL bytes), symbolic death instant and wait status; SIGCHLD "
+               "delivered inside select() only (the real handler runs), late or for several children at once; EINTR; arbitrary non-empty subsets of "
+               "what is ready; short reads and read errors", "sig_*: record blocked/unblocked", "ssout: ideal stream"],
+        assumes=["K loop iterations, NS slots, child output <= OL bytes; truncreport TR (0 = qmail-rspawn, 3000 = qmail-lspawn; not reached by OL bytes)"],
+        outside=["the truncation branch for outputs longer than truncreport", "more than K iterations"],
+        claim="the spawner's event loop reports every started delivery exactly once, after its child was reaped, with that child's own wait status and "
+              "exactly its output, framed <slot> .. NUL and flushed; slots and pipe ends are released exactly then; it exits only at end of commands "
+              "with nothing outstanding",
+        expect_witnesses=lambda p: ["bound_reached", "clean_exit", "crashed_child_reported_with_its_status", "full_output_reported"]
+                                   + (["two_deliveries_then_exit"] if p["K"] >= 5 else []))
     # the queue manager's side of the report channel (shared with C03)
     shared = borrow("C03", ["del_dochan", "del_dochan_truncation"], tier)
-    return shared + [spawn_err, spawn_framing, spawn,
+    return shared + [spawn_err, spawn_framing, spawn, spawn_main,
         Obl("clean_requests", "clean.c",
             progs=[Prog("qmail-clean.c", main_as="clean_main", cut=["cleanuppid"])],
             repo=SMALL, lib=["ideal_substdio.c", "ideal_getln.c", "arena_stralloc.c"],
